@@ -20,3 +20,22 @@ Definition tft_diag (c : tcase) : nat :=
   else 0%nat.
 
 Definition tft_ok (c : tcase) : bool := Nat.eqb (tft_diag c) 0.
+
+(* The same for forests of the dynamic lexers with %ignore, position-aware (token texts carry
+   their start position): every derivation read off the forest must be one of the tilings of
+   the input enumerated at character level (tokens in order, non-overlapping, ignored matches
+   only between them).  The other direction (every tiling is in the forest, up to positions)
+   is compared in the Python stream: lark's TokenNode/PackedNode equality identifies tokens
+   of equal type and text at different positions. *)
+Definition tft_sub_diag (c : tcase) : nat :=
+  let '(a, obs, obs_res, amb, oracle) := c in
+  let s := erase a in
+  if negb (wfb s) then 1%nat
+  else if negb (chk_nodes true a) then 2%nat
+  else if negb (match tft s with Some t => utree_eqb t obs | None => false end) then 3%nat
+  else if negb (match tft_resolve s with [t] => utree_eqb t obs_res | _ => false end) then 4%nat
+  else if negb (Bool.eqb (is_ambiguous s) amb) then 5%nat
+  else if negb (forallb (fun x => omem x oracle) (map to_otree (root_derivs s))) then 6%nat
+  else 0%nat.
+
+Definition tft_sub_ok (c : tcase) : bool := Nat.eqb (tft_sub_diag c) 0.
